@@ -22,6 +22,14 @@ CHECKS = {
         note='forward mode at degree 2D is the reference (validated by C01/C02/C07/C08/C12); tolerance 1e-8 relative to term magnitudes; '
              'D <= 4, P <= 3, programs <= 10 instructions, operands rank <= 2 and sides <= 3',
         ref='DESIGN.md section 4, C03'),
+    'C05': dict(
+        technique='property-based testing (Hypothesis, concolic program generation): differential test replay-vs-direct execution, recorded-trace vs expected-trace model',
+        text='Generated programs (buffers, views, rewrites, constants on both sides, linear algebra, fft) are recorded with ndarray or UTPM inputs '
+             'and replayed 1..4 times with unrelated inputs (other kind, D, P, points) through cg.function/cg.pushforward; every node value is '
+             'compared with direct execution of the same program; the recorded node sequence is compared with an independently derived expected trace; '
+             'recording-off and second-graph isolation are asserted.',
+        note='direct execution through the generic algopy API is the reference; tolerance 1e-13; programs <= 12 instructions, D <= 4, P <= 3',
+        ref='DESIGN.md section 4, C05'),
 }
 
 NOT_BUILT = 'check not built yet in this session (planned, see DESIGN.md section 4)'
